@@ -6,6 +6,7 @@ CONSTANTS MaxFds = 253
   CloseOnReject = TRUE
   RejectCtrunc = TRUE
   AbsorbDesc = TRUE
+  ValueHandover = TRUE
 SPECIFICATION TSpec
 INVARIANTS InOrder Whole LedgerBalanced
 CONSTRAINT Mark
